@@ -60,3 +60,47 @@ CHECKS["C08"] = tree_check(
     "+ automatic block size + TBFMM_BLOCK_SIZE override; oracle: order-insensitive digest of elementary interactions (operator, "
     "level, target, source, position code) and all cell expansions / particle results bit-identical to the canonical run. "
     "Non-trivial = configuration with >= 2 leaf groups and >= 2 occupied leaves.")
+
+
+# ---- E3: schedule exploration -----------------------------------------------------------------------------------
+SCHED_OBJ = {"source": "harness/sched/vf_sched.cpp", "flags": ["-O1", "-g", "-fno-omit-frame-pointer"]}
+
+
+def sched_builds(defs, driver="drivers/sched_driver.cpp", prefix="sd", extra_inc=None):
+    fast = {"name": prefix + "_fast",
+            "objects": [{"source": driver, "flags": ["-O2", "-g", "-fopenmp", "-fno-access-control"] + defs}, SCHED_OBJ],
+            "link": ["-ldl", "-rdynamic"]}
+    trace = {"name": prefix + "_trace",
+             "objects": [{"source": driver, "flags": ["-O1", "-g", "-fno-inline", "-fno-omit-frame-pointer", "-fsanitize=thread",
+                                                       "-fopenmp", "-fno-access-control", "-DVF_TRACE"] + defs}, SCHED_OBJ],
+             "link": ["-ldl", "-rdynamic"]}
+    if extra_inc:
+        fast["includes_first"] = extra_inc
+        trace["includes_first"] = extra_inc
+    return [fast, trace]
+
+
+MC_ASSUME = COMMON_ASSUME + [
+    "the mock task runtime's reading of the dependency semantics (harness/sched/vf_sched.cpp): a task may start when every earlier "
+    "task with a conflicting access mode on a common handle has finished; commutative accesses are unordered but exclusive",
+    "tasks are atomic steps of the explorer; overlap inside tasks is covered by the footprint race check on the explicit DAG, "
+    "not by interleaving; memcpy/memset inside libc are invisible to the access trace",
+    "gcc's OpenMP lowering (GOMP ABI: argument block copy, depend array layout)",
+]
+
+CHECKS["C03"] = {
+    "builds": sched_builds(["-DVF_EXEC_OMP"]),
+    "runs": [{"driver": "sd_fast", "args": ["--mode", "C03"], "slices": 48, "tag": "fast"},
+             {"driver": "sd_trace", "args": ["--mode", "C03"], "slices": 48, "tag": "trace"}],
+    "level": "model_checking",
+    "rule": "states = abstract states (tasks created, set of tasks executed) of the task graph the real executor submits for a driver "
+            "tree; transitions = create / run(k) steps; every transition out of every reachable state is executed at least once by "
+            "replaying a choice prefix on a fresh tree + algorithm object (stateless exploration with state cache); invariants: "
+            "confluence of the tree digest at every state, bit-identical equality with the sequential executor at the terminal "
+            "state, per-call argument predicates, worker discipline, and in the trace build byte-exact footprint race check over "
+            "all unordered task pairs + frame-exact lifetime check of every access to the submitter's stack. Mid-size trees: five "
+            "named schedules (defer-all FIFO/LIFO/priority/inverted priority, run-at-creation) x W in {1,2,3,16}; deviation-bounded "
+            "exploration where stated. evaluations = complete executions on the real code.",
+    "assumptions": MC_ASSUME,
+    "deadline": {"quick": 600, "thorough": 3000},
+}
